@@ -1,14 +1,14 @@
 SPECIFICATION Spec
 CONSTANTS
   MinNodes = 0
-  MaxNodes = 3
+  MaxNodes = 2
   Base = 256
   MaxChain = 1
   IdxSpace = 8
   PastEndRule = "ge"
   CompletionOrder = "rewrite-publish"
   Withdrawals = TRUE
-  ConcurrentWithdrawals = FALSE
+  ConcurrentWithdrawals = TRUE
   HostReads = "snapshot"
   Reannouncements = TRUE
   ReannounceRule = "atomic"
